@@ -160,13 +160,15 @@ fn junk_block(r: &mut Rng) -> Vec<u8> {
         }
         return b;
     }
-    let n = match r.below(10) {
+    let n = match r.below(12) {
         0 => 0,
         1 => 1 + r.below(3),
         2 => 15,
         3 => 16,
         4 => 17,
         5 => 4096,
+        // around a power of two (32 .. 32768): where chunked / windowed searches have their seams
+        6 | 7 => ((1usize << (5 + r.below(11))) + r.below(9)).saturating_sub(4),
         _ => 1 + r.below(64),
     };
     let mut b = match r.below(4) {
